@@ -49,7 +49,7 @@ func c34History(h int) *c34Run {
 	r := &c34Run{base: d.FS().Clone()}
 	d.ResetLog()
 	t0 := time.Date(2021, 3, 1, 10, 0, 0, 0, time.UTC)
-	sch := vrt.Run(nil, nil, func() {
+	sch := vrt.Run(nil, func(s *vrt.Sched) { s.NoForcedTimers = true }, func() {
 		w, obs := world.Start(world.Config{BackgroundSync: true, WALRotateInterval: 1})
 		if !obs.OK() {
 			panic("c34 history start: " + obs.String())
